@@ -76,7 +76,7 @@ def has_multibyte(L):
     return any(has_multibyte(g) for g in L.groups) or bool(L.data)
 
 
-def run(prop, t, budget, inflate):
+def run(prop, t, budget, inflate, extra_part=None):
     pc = poolcheck.PoolCheck(prop, t, budget)
     res = pc.res
     modes = ["ra", "cur", "vis"] if inflate else ["ra", "cur", "vis"]
@@ -119,6 +119,8 @@ def run(prop, t, budget, inflate):
         check_dump(pc, entry, mi, L, vals, img, size, modes, inflate)
 
     pc.run_hypothesis(body, 2500 if t == "quick" else 40000)
+    if extra_part is not None:
+        extra_part(res, t)
     return pc.finish()
 
 
